@@ -197,7 +197,7 @@ def make_tracing_compiler(base_cls, n_photons, n_quantum, log_state=True):
 
 
 _COMPILER_POOL = {}
-_COMPILE_COUNT = [0]
+_COMPILE_COUNT = {}
 
 
 def compile_traced(circuit, backend, setting, initial_state=None, seed=None):
@@ -207,9 +207,10 @@ def compile_traced(circuit, backend, setting, initial_state=None, seed=None):
     base = StabilizerCompiler if backend == "stabilizer" else DensityMatrixCompiler
     n_q = circuit.n_quantum
     # most compiles go through ONE long-lived compiler object per backend (what a user does; anything a compiler keeps
-    # between calls is then exercised), every fourth through a fresh one
-    _COMPILE_COUNT[0] += 1
-    if _COMPILE_COUNT[0] % 4 == 0 or backend not in _COMPILER_POOL:
+    # between calls is then exercised), every fifth compile of a backend through a fresh one (counted per backend: a
+    # common counter locks in phase with drivers that alternate backends or layouts)
+    _COMPILE_COUNT[backend] = _COMPILE_COUNT.get(backend, 0) + 1
+    if _COMPILE_COUNT[backend] % 5 == 0 or backend not in _COMPILER_POOL:
         comp = make_tracing_compiler(base, circuit.n_photons, n_q)()
         if backend not in _COMPILER_POOL:
             _COMPILER_POOL[backend] = comp
